@@ -5,25 +5,41 @@ import Mathlib.Tactic.Ring
 import Mathlib.Tactic.FieldSimp
 import Mathlib.Data.Rat.Floor
 import Mathlib.Algebra.Order.Field.Rat
+import Mathlib.Data.Rat.Lemmas
 /-! # C17 — Symbolic comparisons agree with Fortran integer arithmetic
 
-Model: `PsyVerif/Model/SymMaths.lean`.  `toSym brk` is the `SymPyWriter` translation.  The DEPLOYED model is
-`brk = true` (since /repo commit ab94ce4 the inherited `FortranWriter.binaryoperation_node` brackets a left operand
-of `**`; the harness treats an unbracketed live writer as a broken correspondence and every wrong verdict on a
-left-nested power as a failing input).  `brk = false` is the writer of the pinned snapshot, where `(a**k)**m`
-reached SymPy as `a**(k**m)`; it is kept for the kernel-checked counterexamples only; `evalQ` is what SymPy reasons about (exact
-rational division, floored `Mod`, symbols and array functions arbitrary); `evalF` is Fortran.
+Model: `PsyVerif/Model/SymMaths.lean`.
+* `IExpr`: literals, variables, unary minus, + − * /, `**` with a natural literal exponent (`pow`) and with an arbitrary
+  integer expression as exponent (`powe`: symbolic / negative), MOD, MIN, MAX (binary; the harness folds n-ary calls),
+  array accesses of rank 1–3 as uninterpreted applied symbols.
+* `evalF`: Fortran (truncating `/`, MOD with the sign of the dividend, negative exponent = `1/a**|b|` truncated);
+  `defined`: no zero divisor, no `0**negative`.
+* `toSym brk`: the `SymPyWriter` translation.  The DEPLOYED model is `brk = true` (since /repo commit ab94ce4 the
+  inherited `FortranWriter.binaryoperation_node` brackets a left operand of `**`; the harness treats an unbracketed live
+  writer as a broken correspondence and every wrong verdict on a left-nested power as a failing input).  `brk = false`
+  is the writer of the pinned snapshot, where `(a**k)**m` reached SymPy as `a**(k**m)`; it is kept for the kernel-checked
+  counterexamples only (and is only meant for literal exponent chains).
+* `evalQ`: what SymPy reasons about (exact rational division, floored `Mod`, rational powers, symbols and array
+  functions arbitrary).
 
 SymPy (`simplify`, `expand`, `solveset`) is an external library.  It enters in two ways:
-* as the explicit *contract* `SymEq` / `SymDiffConst` (SymPy only declares a difference zero / a non-zero integer
-  if it is so for every valuation) — theorems `…_contract_partial`, valid for MIN, MAX and array accesses too;
+* as explicit *contracts* `SymEq` / `SymDiffConst` / `SolveSetSound` (SymPy only declares a difference zero / a non-zero
+  integer / an element of a FiniteSet a root if it is so for every valuation) — theorems `…_contract_partial`, valid for
+  MIN, MAX and array accesses too, and for every kind of `solveset` result the Python code distinguishes (`pySolve`);
 * not at all: on the polynomial fragment (+ division by non-zero constants) the model contains its own decision
-  procedure `normQ`, and `modelEqual / modelNever / modelSolve / modelExpand` are compared with the real
-  SymPy-based functions by the correspondence check — theorems `…_partial`.
+  procedure `normQ` (sound, canonical, total on polynomials and complete over ℤ), and `modelEqual / modelNever /
+  modelSolve / modelExpand` are compared with the real SymPy-based functions by the correspondence check — theorems
+  `…_partial`, `…_complete`.
 
-The full statement `C17_statement` is FALSE of the code (integer `/`, MOD; on the pinned snapshot also left-nested `**`); it is kept as
-a `def`, refuted on concrete witnesses, and proved under the decidable side condition `frag brk e = true`
-(no `/`, no MOD, and — while the writer does not bracket — no left-nested `**`). -/
+The full statement `C17_statement` is FALSE of the code (integer `/`, MOD, negative/symbolic exponents; on the pinned
+snapshot also left-nested `**`); it is kept as a `def`, refuted on concrete witnesses, and proved under the decidable side
+condition `frag brk e = true`: no `/`, no MOD, every exponent a natural literal, and — while the writer does not
+bracket — no left-nested `**`.
+
+Use by the dependence analysis (C08): `never_equal e₁ e₂ = True` on the fragment means the two subscripts differ for
+every valuation (`C17_never_equal_partial`) — at the SAME valuation: it says nothing about different loop iterations
+(`C17_never_equal_same_valuation_only`), and `False` does not mean the subscripts can coincide
+(`C17_never_equal_not_necessary`). -/
 namespace C17
 open IExpr
 
@@ -41,13 +57,22 @@ def EqualOK (e1 e2 : IExpr) : Prop :=
 def NeverOK (e1 e2 : IExpr) : Prop :=
   ∀ ρ : Env, defined e1 ρ = true → defined e2 ρ = true → evalF e1 ρ ≠ evalF e2 ρ
 
+/-- `s` (a function of the other symbols) is a root of `e1 = e2` in `x` for every valuation -/
+def RootOf (e1 e2 : IExpr) (x : Nat) (s : QEnv → Rat) : Prop :=
+  ∀ ρ : QEnv, evalQ e1 (ρ.set x (s ρ)) = evalQ e2 (ρ.set x (s ρ))
+/-- Contract for `solveset`: the members of a `FiniteSet` are roots (nothing is assumed about the other kinds) -/
+def SolveSetSound (e1 e2 : IExpr) (x : Nat) : SolveSet (QEnv → Rat) → Prop
+  | .finite l => ∀ s ∈ l, RootOf e1 e2 x s
+  | _ => True
+
 /-- The property at full strength, for a writer with bracketing behaviour `brk`: every verdict SymPy may give under
 its contract on the translated expressions is true of the Fortran values; every reported (integer) solution is a
 solution; expansion preserves the value. -/
 def C17_statement (brk : Bool) : Prop :=
   (∀ e1 e2, SymEq (toSym brk e1) (toSym brk e2) → EqualOK e1 e2) ∧
   (∀ e1 e2 c, c ≠ 0 → SymDiffConst (toSym brk e1) (toSym brk e2) c → NeverOK e1 e2) ∧
-  (∀ x e1 e2 s, modelSolve brk x e1 e2 = .one s → ∀ (ρ : Env) (z : Int), evalPoly s (liftEnv ρ) = (z : Rat) →
+  (∀ x e1 e2 (S : SolveSet (QEnv → Rat)), SolveSetSound (toSym brk e1) (toSym brk e2) x S →
+      ∀ l, pySolve S = .sols l → ∀ s ∈ l, ∀ (ρ : Env) (z : Int), s (liftEnv ρ) = (z : Rat) →
       defined e1 (ρ.set x z) = true → defined e2 (ρ.set x z) = true →
       evalF e1 (ρ.set x z) = evalF e2 (ρ.set x z)) ∧
   (∀ e p, modelExpand brk e = some p → ∀ ρ : Env, defined e ρ = true → evalPoly p (liftEnv ρ) = (evalF e ρ : Rat))
@@ -143,6 +168,52 @@ theorem C17_solve_sound_partial {brk : Bool} {x : Nat} {e1 e2 : IExpr} {s : Poly
       · cases h
     · cases h
 
+/-- `solve_equal_for` returns concrete solutions exactly for `EmptySet` (none) and `FiniteSet` (its members); every
+other kind of `solveset` result becomes the string "independent" or a `ValueError`. -/
+theorem C17_pySolve_sols_iff {σ : Type} (S : SolveSet σ) (l : List σ) :
+    pySolve S = .sols l ↔ (S = .empty ∧ l = []) ∨ S = .finite l := by
+  cases S <;> simp [pySolve, eq_comm]
+
+theorem C17_pySolve_independent_iff {σ : Type} (S : SolveSet σ) :
+    pySolve S = .independent ↔ S = .complexes ∨ S = .conditionSet ∨ S = .imageSet ∨ S = .union := by
+  cases S <;> simp [pySolve]
+
+/-- General soundness of `solve_equal_for` on the fragment, for every branch that returns concrete solutions: under the
+`solveset` contract, each returned solution that takes an integer value is a solution of the Fortran equation. -/
+theorem C17_solve_sound_contract_partial {brk : Bool} {x : Nat} {e1 e2 : IExpr} {S : SolveSet (QEnv → Rat)}
+    (h1 : frag brk e1 = true) (h2 : frag brk e2 = true) (hS : SolveSetSound (toSym brk e1) (toSym brk e2) x S)
+    {l : List (QEnv → Rat)} (hl : pySolve S = .sols l) {s : QEnv → Rat} (hs : s ∈ l)
+    (ρ : Env) (z : Int) (hz : s (liftEnv ρ) = (z : Rat)) :
+    evalF e1 (ρ.set x z) = evalF e2 (ρ.set x z) := by
+  rcases (C17_pySolve_sols_iff S l).mp hl with ⟨_, rfl⟩ | rfl
+  · cases hs
+  · have := hS s hs (liftEnv ρ)
+    rw [hz, ← liftEnv_set, C17_hom h1, C17_hom h2] at this
+    exact_mod_cast this
+
+/-- the executable linear solver satisfies the `solveset` contract (for every expression it accepts) -/
+theorem C17_modelSolve_contract {brk : Bool} {x : Nat} {e1 e2 : IExpr} {s : Poly}
+    (h : modelSolve brk x e1 e2 = .one s) : RootOf (toSym brk e1) (toSym brk e2) x (evalPoly s) := by
+  intro ρ
+  unfold modelSolve at h
+  split at h
+  · cases h
+  · next d hd =>
+    simp only at h
+    split at h
+    · split at h <;> cases h
+    · next m a hx =>
+      split at h
+      · next hma =>
+        obtain ⟨rfl, ha⟩ := hma
+        cases h
+        have h0 := solve_coreQ ha hx ρ
+        rw [normQ_sound _ hd] at h0
+        simp only [evalQ] at h0
+        exact sub_eq_zero.mp h0
+      · cases h
+    · cases h
+
 /-- `expand` on the fragment returns a polynomial with the value of the original expression. -/
 theorem C17_expand_preserves {brk : Bool} {e : IExpr} {p : Poly} (hf : frag brk e = true)
     (h : modelExpand brk e = some p) (ρ : Env) : evalPoly p (liftEnv ρ) = (evalF e ρ : Rat) := by
@@ -165,6 +236,9 @@ theorem C17_frag_defined {brk : Bool} {e : IExpr} (h : frag brk e = true) (ρ : 
   | max a b iha ihb => simp only [frag, Bool.and_eq_true] at h; simp [defined, iha h.1, ihb h.2]
   | arr1 f i ih => simp only [frag] at h; simp [defined, ih h]
   | arr2 f i j ihi ihj => simp only [frag, Bool.and_eq_true] at h; simp [defined, ihi h.1, ihj h.2]
+  | arr3 f i j k ihi ihj ihk =>
+    simp only [frag, Bool.and_eq_true] at h; simp [defined, ihi h.1.1, ihj h.1.2, ihk h.2]
+  | powe a b => simp [frag] at h
 
 /-- A writer that brackets left-nested powers translates every tree to itself. -/
 theorem C17_toSym_bracketed_id (e : IExpr) : toSym true e = e := by
@@ -176,12 +250,16 @@ theorem C17_toSym_bracketed_id (e : IExpr) : toSym true e = e := by
 /-- outputs of `normQ` are canonical: monomials sorted, terms strictly sorted, no zero coefficient -/
 theorem C17_normPoly_canonical {e : IExpr} {p : Poly} (h : normQ e = some p) : Canon p := normQ_canon e h
 
-/-- Converse of `C17_equal_partial`: if two expressions of the fragment (whose translated difference is in the domain
-of `normQ`) have the same Fortran value for every integer valuation, the model's `equal` says True.  (ℤ is infinite:
-polynomials that agree on ℤ have the same normal form.) -/
-theorem C17_equal_complete {brk : Bool} {e1 e2 : IExpr} {d : Poly} (h1 : frag brk e1 = true) (h2 : frag brk e2 = true)
-    (hd : normQ (.sub (toSym brk e1) (toSym brk e2)) = some d) (h : ∀ ρ : Env, evalF e1 ρ = evalF e2 ρ) :
+/-- `normQ` is total on polynomial expressions (and so is the translated difference of two of them) -/
+theorem C17_normQ_total {e : IExpr} (h : isPoly e = true) : ∃ d, normQ e = some d := normQ_total h
+
+/-- Converse of `C17_equal_partial`: if two polynomial expressions of the fragment have the same Fortran value for
+every integer valuation, the model's `equal` says True.  (ℤ is infinite: polynomials that agree on ℤ have the same
+normal form.) -/
+theorem C17_equal_complete {brk : Bool} {e1 e2 : IExpr} (p1 : isPoly e1 = true) (p2 : isPoly e2 = true)
+    (h1 : frag brk e1 = true) (h2 : frag brk e2 = true) (h : ∀ ρ : Env, evalF e1 ρ = evalF e2 ρ) :
     modelEqual brk e1 e2 = true := by
+  obtain ⟨d, hd⟩ := normQ_diff_total brk p1 p2
   have hd0 : d = [] := by
     apply canon_vanish_int (normQ_canon _ hd)
     intro ρ
@@ -193,10 +271,10 @@ theorem C17_equal_complete {brk : Bool} {e1 e2 : IExpr} {d : Poly} (h1 : frag br
 
 /-- Converse of `C17_never_equal_partial`: a difference that is the same non-zero integer at every integer valuation
 is recognised by the model's `never_equal`. -/
-theorem C17_never_equal_complete {brk : Bool} {e1 e2 : IExpr} {d : Poly} {c : Int} (hc : c ≠ 0)
-    (h1 : frag brk e1 = true) (h2 : frag brk e2 = true)
-    (hd : normQ (.sub (toSym brk e1) (toSym brk e2)) = some d) (h : ∀ ρ : Env, evalF e1 ρ - evalF e2 ρ = c) :
-    modelNever brk e1 e2 = true := by
+theorem C17_never_equal_complete {brk : Bool} {e1 e2 : IExpr} {c : Int} (hc : c ≠ 0)
+    (p1 : isPoly e1 = true) (p2 : isPoly e2 = true) (h1 : frag brk e1 = true) (h2 : frag brk e2 = true)
+    (h : ∀ ρ : Env, evalF e1 ρ - evalF e2 ρ = c) : modelNever brk e1 e2 = true := by
+  obtain ⟨d, hd⟩ := normQ_diff_total brk p1 p2
   have hcan := normQ_canon _ hd
   have hcq : (c : Rat) ≠ 0 := by exact_mod_cast hc
   have hev : ∀ ρ : Env, evalPoly d (liftEnv ρ) = (c : Rat) := by
@@ -235,19 +313,20 @@ theorem C17_statement_partial (brk : Bool) :
     (∀ e1 e2, frag brk e1 = true → frag brk e2 = true → SymEq (toSym brk e1) (toSym brk e2) → EqualOK e1 e2) ∧
     (∀ e1 e2 c, frag brk e1 = true → frag brk e2 = true → c ≠ 0 →
         SymDiffConst (toSym brk e1) (toSym brk e2) c → NeverOK e1 e2) ∧
-    (∀ x e1 e2 s, frag brk e1 = true → frag brk e2 = true → modelSolve brk x e1 e2 = .one s →
-        ∀ (ρ : Env) (z : Int), evalPoly s (liftEnv ρ) = (z : Rat) → evalF e1 (ρ.set x z) = evalF e2 (ρ.set x z)) ∧
+    (∀ x e1 e2 (S : SolveSet (QEnv → Rat)), frag brk e1 = true → frag brk e2 = true →
+        SolveSetSound (toSym brk e1) (toSym brk e2) x S → ∀ l, pySolve S = .sols l → ∀ s ∈ l,
+        ∀ (ρ : Env) (z : Int), s (liftEnv ρ) = (z : Rat) → evalF e1 (ρ.set x z) = evalF e2 (ρ.set x z)) ∧
     (∀ e p, frag brk e = true → modelExpand brk e = some p →
         ∀ ρ : Env, evalPoly p (liftEnv ρ) = (evalF e ρ : Rat)) :=
   ⟨fun _ _ h1 h2 h ρ _ _ => C17_equal_contract_partial h1 h2 h ρ,
    fun _ _ _ h1 h2 hc h ρ _ _ => C17_never_equal_contract_partial h1 h2 hc h ρ,
-   fun _ _ _ _ h1 h2 h ρ z hz => C17_solve_sound_partial h1 h2 h ρ z hz,
+   fun _ _ _ _ h1 h2 hS _ hl _ hs ρ z hz => C17_solve_sound_contract_partial h1 h2 hS hl hs ρ z hz,
    fun _ _ hf h ρ => C17_expand_preserves hf h ρ⟩
 
 /-! ### witnesses: the pinned translation is wrong outside the fragment -/
 
 /-- valuation with every scalar equal to `z` -/
-def ρc (z : Int) : Env := { var := fun _ => z, f1 := fun _ _ => 0, f2 := fun _ _ _ => 0 }
+def ρc (z : Int) : Env := { var := fun _ => z, f1 := fun _ _ => 0, f2 := fun _ _ _ => 0, f3 := fun _ _ _ _ => 0 }
 def n : IExpr := var 0
 
 /-- `n/2*2` is declared equal to `n`; at n = 1 Fortran gives 0 ≠ 1. -/
@@ -325,6 +404,55 @@ theorem C17_counterexample_expand :
   revert this
   simp [evalPoly_cons, evalPoly_nil, evalMono_cons, evalMono_nil, liftEnv, ρc, evalF, n]
 
+theorem qpow_two_succ (q : Rat) : qpow 2 q * 2 = qpow 2 (q + 1) := by
+  unfold qpow
+  have hden : (q + 1).den = q.den := by simp
+  by_cases h : q.den = 1
+  · have hq : ((q.num : Int) : Rat) = q := Rat.coe_int_num_of_den_eq_one h
+    have hnum : (q + 1).num = q.num + 1 := by
+      have : q + 1 = ((q.num + 1 : Int) : Rat) := by push_cast; rw [hq]
+      rw [this, Rat.num_intCast]
+    rw [if_pos h, if_pos (hden ▸ h), hnum, qzpow_eq_zpow, qzpow_eq_zpow, zpow_add_one₀ (by norm_num)]
+  · rw [if_neg h, if_neg (hden ▸ h)]; simp
+
+/-- `2**n*2` and `2**(n+1)` denote the same for SymPy (rational powers), but an integer power with a negative
+exponent truncates in Fortran: at n = -1 the values are 0 and 1.  (The writer brackets nothing here: `brk = true`.) -/
+theorem C17_witness_negexp_equal :
+    SymEq (toSym true (mul (powe (lit 2) n) (lit 2))) (toSym true (powe (lit 2) (add n (lit 1)))) ∧
+    defined (mul (powe (lit 2) n) (lit 2)) (ρc (-1)) = true ∧ defined (powe (lit 2) (add n (lit 1))) (ρc (-1)) = true ∧
+    evalF (mul (powe (lit 2) n) (lit 2)) (ρc (-1)) ≠ evalF (powe (lit 2) (add n (lit 1))) (ρc (-1)) := by
+  refine ⟨?_, by decide, by decide, by decide⟩
+  intro ρ
+  simp only [C17_toSym_bracketed_id, evalQ, n]
+  have := qpow_two_succ (ρ.var 0)
+  simpa using this
+
+/-- the `equal` clause fails on symbolic exponents even with the repaired writer and without `/` or MOD -/
+theorem C17_counterexample_negexp :
+    ¬ (∀ e1 e2, SymEq (toSym true e1) (toSym true e2) → EqualOK e1 e2) := by
+  intro h
+  have hw := C17_witness_negexp_equal
+  exact hw.2.2.2 (h _ _ hw.1 (ρc (-1)) hw.2.1 hw.2.2.1)
+
+/-! ### warnings for users of `never_equal` (dependence analysis, C08) -/
+
+/-- `never_equal = False` does NOT mean the subscripts can coincide: `2*i` and `2*j+1` never coincide over ℤ, but their
+difference is symbolic, so the code (and the model) answer False.  (Sufficient, not necessary.) -/
+theorem C17_never_equal_not_necessary :
+    modelNever true (mul (lit 2) (var 0)) (add (mul (lit 2) (var 1)) (lit 1)) = false ∧
+    ∀ ρ : Env, evalF (mul (lit 2) (var 0)) ρ ≠ evalF (add (mul (lit 2) (var 1)) (lit 1)) ρ := by
+  refine ⟨by decide +kernel, ?_⟩
+  intro ρ
+  simp only [evalF]
+  omega
+
+/-- `never_equal = True` compares the two expressions at the SAME valuation: `i` and `i+1` are never equal, yet the
+value of `i+1` in iteration i = 0 is the value of `i` in iteration i = 1 (a loop-carried dependence). -/
+theorem C17_never_equal_same_valuation_only :
+    modelNever true (var 0) (add (var 0) (lit 1)) = true ∧
+    evalF (var 0) ((ρc 0).set 0 1) = evalF (add (var 0) (lit 1)) ((ρc 0).set 0 0) := by
+  refine ⟨by decide +kernel, by decide⟩
+
 /-! ### non-vacuity and sanity evaluations -/
 
 -- hypotheses of `C17_equal_partial` are satisfiable on a non-trivial pair: i² − j² vs (i−j)(i+j)
@@ -348,9 +476,21 @@ example : modelSolve false 0 (mul (var 0) (var 0)) (lit 4) = .unknown := by deci
 -- … of `C17_expand_preserves`: (i+j)² expands to i² + 2ij + j²
 example : modelExpand false (pow (add (var 0) (var 1)) 2) = some [([0, 0], 1), ([0, 1], 2), ([1, 1], 1)] := by
   decide +kernel
--- hypotheses of `C17_equal_complete` are satisfiable: the domain condition holds on a non-trivial pair
-example : (normQ (.sub (toSym false (pow (add (var 0) (lit 1)) 2)) (toSym false (add (mul (var 0) (var 0)) (add (mul (lit 2) (var 0)) (lit 1)))))).isSome = true := by
+-- hypotheses of `C17_equal_complete` are satisfiable on a non-trivial pair: (i+1)² and i*i + (2*i + 1)
+example : isPoly (pow (add (var 0) (lit 1)) 2) = true ∧ frag true (pow (add (var 0) (lit 1)) 2) = true ∧
+    isPoly (add (mul (var 0) (var 0)) (add (mul (lit 2) (var 0)) (lit 1))) = true ∧
+    modelEqual true (pow (add (var 0) (lit 1)) 2) (add (mul (var 0) (var 0)) (add (mul (lit 2) (var 0)) (lit 1))) = true := by
   decide +kernel
+-- the `solveset` classification: a FiniteSet is returned as is, an ImageSet / Union / ConditionSet becomes "independent"
+example : pySolve (SolveSet.finite [1, 2]) = PySolve.sols [1, 2] ∧ pySolve (SolveSet.empty : SolveSet Nat) = .sols [] := ⟨rfl, rfl⟩
+example : pySolve (SolveSet.imageSet : SolveSet Nat) = .independent ∧ pySolve (SolveSet.union : SolveSet Nat) = .independent ∧
+    pySolve (SolveSet.conditionSet : SolveSet Nat) = .independent := ⟨rfl, rfl, rfl⟩
+-- Fortran integer powers with negative exponents: 2**(-1) = 0, 1**(-3) = 1, (-1)**(-3) = -1; 0**(-1) is undefined
+example : evalF (powe (lit 2) (neg (lit 1))) (ρc 0) = 0 ∧ evalF (powe (lit 1) (neg (lit 3))) (ρc 0) = 1 ∧
+    evalF (powe (neg (lit 1)) (neg (lit 3))) (ρc 0) = -1 ∧ defined (powe (lit 0) (neg (lit 1))) (ρc 0) = false := by decide
+-- symbolic exponents are outside the fragment and outside `normQ`; rank-3 accesses are inside the fragment
+example : frag true (powe (lit 2) n) = false ∧ normQ (powe (lit 2) n) = none ∧
+    frag true (arr3 0 (var 0) (add (var 1) (lit 1)) (var 2)) = true := by decide
 -- the contract theorems apply to MIN/MAX/array accesses, which `normQ` refuses
 example : frag false (min (arr1 0 (add (var 0) (lit 1))) (max (var 1) (arr2 1 (var 0) (var 1)))) = true := by decide
 example : normQ (min (var 0) (var 1)) = none := by decide
